@@ -49,7 +49,7 @@ func runHostile(c *run.C, cd *codec.Codec, input []byte, ep int, sizes []int, bu
 	ok, g := guardCall(c, what, func() int { return m.NEvents }, func() {
 		switch ep {
 		case epParse:
-			res.err = cd.Parse(append([]byte{}, input...), m.WithRefs())
+			res.err = cd.Parse(exactCopy(input), m.WithRefs())
 		case epParseString:
 			res.err = cd.ParseString(string(input), m.WithRefs())
 		case epParseReader:
@@ -69,7 +69,7 @@ func runHostile(c *run.C, cd *codec.Codec, input []byte, ep int, sizes []int, bu
 		case epBytesDecoder, epReaderDecoder:
 			var d codec.Decoder
 			if ep == epBytesDecoder {
-				d = cd.NewBytesDecoder(append([]byte{}, input...), m.WithRefs())
+				d = cd.NewBytesDecoder(exactCopy(input), m.WithRefs())
 			} else {
 				d = cd.NewDecoder(&mon.ChunkReader{Data: input, Sizes: sizes, EOFWithData: len(input)%2 == 1}, bufSize, m.WithRefs())
 			}
